@@ -682,7 +682,7 @@ class ObjWorld:
                 raise InternalError(f"bad op {op}")
         except InternalError:
             raise
-        except (AssertionError, ValueError, KeyError, IndexError) as e:
+        except Exception as e:
             return type(e).__name__
         return None
 
@@ -737,6 +737,35 @@ def model_alias(rep):
     return out
 
 
+def alias_le(im, mo):
+    """the implementation shares no more than the model: every identity / common-memory relation it shows is one the
+    model predicts (it may copy more than the model says, never less)"""
+    sub = lambda a, b: all(x in b for x in a)
+    if set(im["cal_owner"]) != set(mo["cal_owner"]) or set(im["data_shares"]) != set(mo["data_shares"]):
+        return False
+    if not all(sub(im["cal_owner"][n], mo["cal_owner"][n]) for n in im["cal_owner"]):
+        return False
+    if not all(sub(im["data_shares"][k], mo["data_shares"][k]) for k in im["data_shares"]):
+        return False
+    if not all(sub(im[k], mo[k]) for k in ("dict_is", "cfg_is", "offs_shared")):
+        return False
+    # names sharing one Calibration object in the implementation share one in the model
+    return all(any(set(g) <= set(h) for h in mo["cal_groups"]) for g in im["cal_groups"])
+
+
+def shares_le(im, mo):
+    if set(im) != set(mo):
+        return False
+    for label in im:
+        a, b = im[label], mo[label]
+        if isinstance(a, dict) or isinstance(b, dict):
+            if a != b:
+                return False
+        elif not all(x in b for x in a):
+            return False
+    return True
+
+
 def model_read_shares(rep, r):
     if "raises" in r:
         return {"raises": r["raises"]}
@@ -786,7 +815,9 @@ def obj_do_reads(world, plan):
                 sizes[label] = int(res.size)
             if kw["layer"] is not None:
                 shares[label] = world.read_shares(res, kw["target"])
-        except (AssertionError, ValueError, KeyError, IndexError) as e:
+        except InternalError:
+            raise
+        except Exception as e:  # whatever it is: a verdict (the model names the class it expects), never an internal error
             reads[label] = {"raises": type(e).__name__}
             if kw["layer"] is not None:
                 shares[label] = {"raises": type(e).__name__}
@@ -801,15 +832,33 @@ class C07(Prop):
     rule = ("targeted: every successful add/remove/rename sequence up to length 3 over {A,B,C,D} from Laser, SRRLaser and both "
             "after npz save/load (16368 sequences each; thorough: over 5 names, 76695 each, plus all 578786 length-4 sequences "
             "over 4 names from Laser and SRRLaser and a quarter of them, by prefix, after npz save/load), grouped into trees "
-            "by prefix; all get() variants are read at every node, a reduced set at the deepest leaves; generated: "
-            "random successful sequences up to length 25 (adds, single/multi removes, renames incl. swaps, cycles, chains onto "
-            "freed names, identity pairs, explicit get() calls, caller edits of the constructor arguments) with all get() variants "
-            "observed after every step; non-trivial = at least one state-changing operation; distinct by canonical case hash")
+            "by prefix; all get() variants are read at every node, a reduced set at the deepest leaves; object-level probes on "
+            "every kind of laser (constructor copies, add by reference, views and copies, write-through, shared offsets array, "
+            "one Calibration under two keys, stray calibration keys, every failing call); generated: random histories up to "
+            "length 25 - 40 % successful sequences against the content-level model, 60 % object-level histories (adds with "
+            "no / a new / an already known Calibration object, removes, renames incl. swaps, cycles, chains, reads, edits of the "
+            "caller's Calibration / dict / config objects, in-place writes into the caller's arrays and through returned arrays, "
+            "rebinding and in-place writes of the offsets array, failing calls of every kind, constructor dicts with a stray "
+            "key or one object under two keys) with state, all get() variants, identities and memory sharing observed after "
+            "every step; non-trivial = at least one state-changing operation; distinct by canonical case hash")
     trusted = ["decoding of observed values: every array is a unique odd constant d, every non-default calibration has gradient "
                "2**k, so a read value is exactly d/2**k in float32 and float64",
                "numpy.lib.recfunctions.drop_fields / rename_fields and structured-dtype construction behave as read from NumPy 2.x "
-               "(duplicate field names raise ValueError)"]
-    assumptions = ["only successful operations are generated and compared; what a raising operation leaves behind is not part of the property",
+               "(duplicate field names raise ValueError; drop_fields builds new memory, rename_fields returns a view)",
+               "identities are observed with `is` (Calibration, dict, config objects) and numpy.shares_memory (arrays, the "
+               "points/weights arrays of calibrations, the offsets array of SRR configs)"]
+    assumptions = ["inside the property's scope (successful add/remove/rename/get, edits of the objects given at construction) "
+                   "the observations are compared with the dictionary specification; failing calls, in-place writes into array "
+                   "memory or the offsets array, edits of a Calibration handed to add(), and lasers constructed with a stray "
+                   "calibration key are outside it: there the implementation is compared with the Lean mechanism only",
+                   "identities: the implementation may share less than the object-level model says (copy more) - the check "
+                   "demands only that it never shares MORE (wherever the model says two objects are separate / two arrays have no "
+                   "common memory the implementation agrees); contents, exception classes and read values are compared exactly",
+                   "a call that fails after doing part of its work, and a write outside the property's scope, may leave each part "
+                   "of the laser (arrays, calibrations, configuration) as the model says or as it was before; when the "
+                   "implementation did less than the model the history is not followed further",
+                   "on a laser with a stray calibration key, rename() onto / from that key and add() of that name are not "
+                   "followed (the outcome depends on how the dict is rebuilt, the property starts from well-formed lasers)",
                    "order of the element tuple and of the calibration dict is not compared (the property speaks of sets)",
                    "SRR reads with layer=None (reconstruction) are compared as the set of non-fill values per element; "
                    "sizes of extent-trimmed reads are C10's subject and are not compared"]
@@ -1217,6 +1266,22 @@ class C07(Prop):
                 break
         ops, errs, unchanged, sim = ops[:stop], errs[:stop], unchanged[:stop], sim[:stop]
         pre = ctx.driver.call("c07.heap", runs=[obj_req(kind, start, ops[:i], []) for i in range(len(ops) + 1)])["runs"]
+        # a laser with calibration keys that name no element (a stray key given to the constructor) is outside the
+        # property; what rename() onto / from such a key and add() of such a name make of it depends on how the dict is
+        # rebuilt, not on anything the property says: such a call is not followed (remove() of the key, reads and calls
+        # on other names are)
+        for i, op in enumerate(ops):
+            m = pre[i]["model"]
+            stray = {k for k, _ in m["cal"]} - set(m["elements"])
+            touched = set()
+            if op["op"] == "rename":
+                touched = {x for pair in op["map"] for x in pair}
+            elif op["op"] == "add":
+                touched = {op["name"]}
+            if stray & touched:
+                ops, errs, unchanged, sim, pre = ops[:i], errs[:i], unchanged[:i], sim[:i], pre[:i + 1]
+                feats.add("stray-key:call-not-followed")
+                break
         if not pre[0]["construct_ok"] or not pre[0]["sep_start"] or pre[0]["inv_start"] != pre[0]["given_ok"]:
             raise InternalError(f"driver: constructor theorems contradicted: {case}")
         in_scope0 = bool(pre[0]["given_ok"])
@@ -1271,16 +1336,52 @@ class C07(Prop):
             reads, sizes, shares = obj_do_reads(world, plans[i])
             impl.append({"state": st, "reads": reads, "sizes": sizes, "state_after_reads": world.state(),
                          "alias": world.alias(), "read_shares": shares, "err": err})
-        # a call that fails half way may leave what the model says, or nothing (how much of a failing call is
-        # undone is not the property's subject): both are accepted
-        if ops and errs[-1] is not None and not unchanged[-1]:
-            last, prev = impl[-1], model[-2]
-            if last != model[-1] and last["err"] == model[-1]["err"] and last["state"] == prev["state"] \
-                    and last["state_after_reads"] == prev["state"]:
-                model[-1] = spec[-1] = last
-                feats.add("fail:half-way(left-unchanged-by-the-code)")
+        # ---- verdicts, step by step
+        # * contents, exceptions, reads: impl == model (and == spec inside the property's scope);
+        # * identities: the implementation may share LESS than the model says (copy more), never more: wherever the
+        #   model says "separate objects / no common memory" the implementation must agree (`alias_le`);
+        # * a call that fails half way (the model leaves a changed state) and an edit outside the property's scope
+        #   (in-place write into array memory / the offsets array, edit of a Calibration handed to add()): every part of
+        #   the state (arrays, calibrations, configuration) is as the model says or as it was before - how much of a
+        #   failing call is undone, and whether such a write reaches the laser at all, is not the property's subject.
+        #   When the implementation did less than the model, the history is not followed further.
+        PARTS = (("elements", "n_elements", "layer_names", "data", "shape"), ("cal", "n_cal"), ("cfg", "offs"))
+        spec_ok = model_ok = True
+        cut = None
+        for i in range(len(impl)):
+            im, mo, sp = impl[i], model[i], spec[i]
+            plain = lambda d: {k: v for k, v in d.items() if k not in ("alias", "read_shares")}
+            lenient = i > 0 and ((errs[i - 1] is not None and not unchanged[i - 1]) or
+                                 (errs[i - 1] is None and ops[i - 1]["op"] not in LASER_OPS and i > scope))
+            if core.canon(plain(im)) == core.canon(plain(mo)):
+                if not (alias_le(im["alias"], mo["alias"]) and shares_le(im["read_shares"], mo["read_shares"])):
+                    if i > 0 and errs[i - 1] is not None and alias_le(im["alias"], model[i - 1]["alias"]):
+                        # a failing call that, in the model, had already moved the data to new memory: the
+                        # implementation raised before doing so
+                        feats.add("lenient:implementation-did-less-than-modelled")
+                        cut = i
+                        break
+                    model_ok = False
+                if sp is not mo and core.canon(plain(im)) != core.canon(plain(sp)):
+                    spec_ok = False
+                feats.add("alias:exactly-as-modelled" if (im["alias"] == mo["alias"] and im["read_shares"] == mo["read_shares"])
+                          else "alias:implementation-shares-less")
+                continue
+            prev = model[i - 1]["state"] if i > 0 else None
+            if lenient and im["err"] == mo["err"] and im["state"] == im["state_after_reads"] and all(
+                    any(all(im["state"][k] == side[k] for k in part) for side in (mo["state"], prev)) for part in PARTS):
+                feats.add("lenient:implementation-did-less-than-modelled")
+                cut = i  # not followed further
+                break
+            model_ok = False
+            if sp is not mo:
+                spec_ok = False
             else:
-                feats.add("fail:half-way(state-as-modelled)")
+                pass
+        if cut is not None:
+            impl, model, spec = impl[:cut], model[:cut], spec[:cut]
+        if ops and errs[-1] is not None and not unchanged[-1]:
+            feats.add("fail:half-way")
         for i, op in enumerate(ops):
             feats |= self.obj_features(op, errs[i], unchanged[i], i < scope, srr)
         if not in_scope0:
@@ -1296,7 +1397,8 @@ class C07(Prop):
         if any(m["alias"]["offs_shared"] for m in model):
             feats.add("alias:config-copy-shares-offsets-array")
         feats.add(f"len:{'0' if not ops else '1-3' if len(ops) <= 3 else '4-10' if len(ops) <= 10 else '11-25'}")
-        return outcome({"steps": impl}, {"steps": model}, {"steps": spec}, hyp=(scope == len(ops)), features=feats,
+        return outcome({"steps": impl}, {"steps": model}, {"steps": spec}, spec_ok=spec_ok, model_ok=model_ok,
+                       hyp=(scope == len(ops)), features=feats,
                        note=f"{len(ops)} steps, {max(scope, 0)} inside the property's scope")
 
     @staticmethod
